@@ -96,10 +96,15 @@ def _weights(case, m, dtype):
 def _aggregator(case, w):
     import torchjd.aggregation as A
 
-    if case["agg"] == "Sum":
-        return A.Sum()
-    if case["agg"] == "Mean":
-        return A.Mean()
+    if case["agg"] in ("Sum", "Mean"):
+        agg = A.Sum() if case["agg"] == "Sum" else A.Mean()
+        if case["wseed"] % 3 != 0:
+            # the SAME instance has been used before, on matrices with more / other numbers of rows (an optimiser step with a
+            # larger batch, another model): what it returns now may not depend on that (deterministic in the case)
+            g = torch.Generator().manual_seed(case["wseed"])
+            for extra in (len(w) + 1 + case["wseed"] % 4, len(w) + 7, max(1, len(w) - 1)):
+                agg(torch.randn(extra, 3, generator=g, dtype=w.dtype))
+        return agg
     return A.Constant(w.clone())
 
 
